@@ -34,7 +34,7 @@ def make_rec(ctx, kind, ns, rng, tag):
     return b, d
 
 
-def make_train(ns, chunk_sizes, rng, nunits, maxwf, nspk):
+def make_train(ns, chunk_sizes, rng, nunits, maxwf, nspk, variant=None):
     """sorted spike train with the awkward cases: both file edges, chunk boundaries, duplicates across units, unit sizes
     below / at / above max_wf, peak channels at the probe ends"""
     lim = ns - (LEN - TROUGH)
@@ -63,11 +63,17 @@ def make_train(ns, chunk_sizes, rng, nunits, maxwf, nspk):
     big = 3 + 2 * 2
     spikes += [(TROUGH + 1, 3, 383), (lim - 1, 3, 0), (lim - 2, big, 190)]   # unit 3 is below max_wf: always drawn
     spikes = sorted(set(spikes), key=lambda x: (x[0], x[1]))
-    # spike number 0 must sometimes be a valid, selectable spike (F8): put one at a valid time first
-    if rng.random() < 0.7:
+    # spike number 0 must sometimes be a valid, selectable spike (F8): put one at a valid time first; the other trains
+    # carry a small unit (1) of its own made of spikes too close to either end (never to be extracted) and two valid ones
+    coin = rng.random() < 0.7
+    if (variant == 0) if variant is not None else coin:
         first_valid = (TROUGH + 1, spikes[0][1], spikes[0][2])
         spikes = [s for s in spikes if s[0] > TROUGH + 1]
         spikes.insert(0, first_valid)
+    else:
+        spikes = [s for s in spikes if s[1] != 1]
+        spikes += [(0, 1, 100), (TROUGH - 1, 1, 383), (TROUGH, 1, 200), (TROUGH + 5, 1, 10), (lim - 7, 1, 300), (lim, 1, 0)]
+        spikes = sorted(set(spikes), key=lambda x: (x[0], x[1]))
     seen, out = set(), []
     for s in spikes:
         if (s[0], s[1]) not in seen:
@@ -92,9 +98,13 @@ def one_extract(ctx, binf, d, train, sc, idx):
     trdir = Path(os.environ["IBL_NEUROPIXEL_VERIF_TRACE"])
     for f in trdir.glob("*.ndjson"):
         f.unlink()
-    ss = np.array([t[0] for t in train], dtype=np.int64)
-    sc_ = np.array([t[1] for t in train], dtype=np.int64)
-    sp = np.array([t[2] for t in train], dtype=np.int64)
+    # the integer types spike sorters hand over (kilosort writes uint64 spike times, uint32 clusters); the result must not
+    # depend on them (the runs of a group differ in it as they differ in chunk size and worker count)
+    dts = [(np.int64, np.int64, np.int64), (np.uint64, np.uint32, np.int64), (np.int32, np.int32, np.int32),
+           (np.uint32, np.int64, np.uint16), (np.uint64, np.int64, np.int64)][idx % 5]
+    ss = np.array([t[0] for t in train], dtype=dts[0])
+    sc_ = np.array([t[1] for t in train], dtype=dts[1])
+    sp = np.array([t[2] for t in train], dtype=dts[2])
     ns = d.shape[0]
     rec = {"ns": ns, "maxwf": sc["maxwf"], "chunk": sc["chunk"], "njobs": sc["njobs"], "train": [list(t) for t in train],
            "table": [], "jobs": [], "content": [], "exc": "",
@@ -301,7 +311,7 @@ def run(ctx):
         tk = (sc["rec"], sc["train"])
         if tk not in trains:
             trains[tk] = make_train(sc["ns"], [500, 777, 1000, 3000, 6500, 10000], np.random.default_rng(sc["seed"]),
-                                    sc["nunits"], sc["maxwf"], sc["nspk"])
+                                    sc["nunits"], sc["maxwf"], sc["nspk"], variant=sc["seed"] % 2)
         t = one_extract(ctx, binf, d, trains[tk], sc, i)
         traces.append(t)
         ctx.count(1, key=(sc["kind"], sc["ns"], sc["train"], sc["maxwf"], sc["chunk"], sc["njobs"]))
@@ -375,7 +385,7 @@ def replay(ctx, sc):
                 pass
             recs[s["rec"]] = make_rec(ctx, s["kind"], s["ns"], rng, s["rec"])
         binf, d = recs[s["rec"]]
-        train = make_train(s["ns"], [500, 777, 1000, 3000, 6500, 10000], np.random.default_rng(s["seed"]), s["nunits"], s["maxwf"], s["nspk"])
+        train = make_train(s["ns"], [500, 777, 1000, 3000, 6500, 10000], np.random.default_rng(s["seed"]), s["nunits"], s["maxwf"], s["nspk"], variant=s["seed"] % 2)
         traces.append(one_extract(ctx, binf, d, train, s, i))
     report(ctx, scs, traces, validate(ctx, traces, "replay"))
     hs = {tuple(t["hash"]) for t in traces if t["hash"]}
